@@ -154,6 +154,7 @@ pub fn run(cfg: &Cfg) {
             case::<PredicateWrapper>(&mut sink, &mut r, "PredicateWrapper(perturbed)", &p2);
         }
     }
-    // the fixture layout from a reader
+    // what the text reader makes of a text, spelling by spelling (Model/JsonText.lean)
+    crate::textgen::run_text_cases(&mut sink, &mut r, if cfg.thorough { 20000 } else { 1500 });
     sink.finish(&cfg.out, serde_json::json!({}));
 }
